@@ -29,9 +29,13 @@ def replay_case(case):
     df = matlib.gamma_frame(FRAMES[case["fid"]])
     formula = matlib.render_formula(case["written"], case["icpt"])
     bad = []
-    for output in OUTPUTS:
-        o = matlib.observe_build(formula, df, output=output, full_rank=case["full_rank"], na=case["na"], cluster=case["cluster"])
+    # every output through the top-level function, and one (rotating) output again through the spec attached to the first result
+    h = sum(map(ord, formula)) + case["fid"]
+    for output, path in [(o, "sugar") for o in OUTPUTS] + [(OUTPUTS[h % len(OUTPUTS)], "attached")]:
+        o = matlib.observe_build(formula, df, output=output, full_rank=case["full_rank"], na=case["na"], cluster=case["cluster"], path=path)
         base = {"formula": formula, "fid": case["fid"], "output": output, "full_rank": case["full_rank"], "na": case["na"], "cluster": case["cluster"]}
+        if path != "sugar":
+            base["path"] = path
         if o["st"] != "OK":
             bad.append({**base, "why": "exception", "observed": o.get("cls"), "msg": o.get("msg")})
             continue
@@ -61,8 +65,8 @@ def run(ctx: Ctx) -> None:
     for c, bad in zip(cases, res):
         if c["fails"] or c["empty"]:
             continue
-        ctx.traces += len(OUTPUTS)
-        ctx.evaluations += len(OUTPUTS)
+        ctx.traces += len(OUTPUTS) + 1
+        ctx.evaluations += len(OUTPUTS) + 1
         if len(c["names"]) >= 2 and len(c["kept"]) >= 2:
             ctx.nontrivial.add(jhash([c["written"], c["icpt"], c["fid"], c["full_rank"], c["na"], c["cluster"]]))
         for b in bad:
